@@ -449,6 +449,12 @@ class SchedulingSolver(BaseModelWithJson):
         if self._is_multi_objective_optimization_problem:
             if self.optimizer == "incremental" or self.optimize_priority == "weight":
                 self.build_equivalent_weighted_objective()
+                if self.optimizer == "optimize":
+                    # the weighted sum is the single objective handed to z3.Optimize
+                    if self._objective.kind == "maximize":
+                        self._solver.maximize(self._objective._target)
+                    elif self._objective.kind == "minimize":
+                        self._solver.minimize(self._objective._target)
             else:
                 for obj in self.problem.objectives.values():
                     variable_to_optimize = obj._target
